@@ -20,7 +20,8 @@ RULE = ("every sequence of length <= L (3 quick / 4 thorough on a reduced menu) 
         "metadata tree is abstracted and compared with a model keyed by (pid, effective format); every "
         "retrieve_metadata is compared byte for byte. distinct_nontrivial = distinct (model metadata keys, call "
         "shape + pid + format, outcome).")
-ASSUMPTIONS = ["'' as a format id is excluded (not a documented value)"]
+ASSUMPTIONS = ["'' as a format id is not a documented value: the model-based part excludes it; a separate part checks only "
+               "what holds under every consistent reading of it (refused / means omitted / a format of its own)"]
 
 DOCSPEC = {"d0": {"cseed": 110, "size": 0}, "d1": {"cseed": 111, "size": 37}, "d5": {"cseed": 112, "size": 5 * 8192 + 11}}
 SPEC = {"X": {"cseed": 113, "size": 100}}
@@ -72,6 +73,7 @@ def shards(tier, seed):
     for s in split_seeds(seed * 1000 + 11, n):
         out.append(("rand", nrand // n, None, tier, s))
     out.append(("suite", 0, None, tier, 0))
+    out.append(("emptyfmt", 6 if tier == "quick" else 40, None, tier, seed * 1000 + 111))
     return out
 
 
@@ -106,6 +108,8 @@ def run_shard(mode, n, firsts, tier, sub_seed):
     if mode == "suite":
         suiteengine.run(res, ID)
         return res
+    if mode == "emptyfmt":
+        return run_empty_format(res, n, sub_seed)
     scratch = new_scratch("c11")
     contents = {k: make_content(v["cseed"], v["size"]) for k, v in SPEC.items()}
     docs = {k: make_content(v["cseed"], v["size"]) for k, v in DOCSPEC.items()}
@@ -159,5 +163,72 @@ def run_shard(mode, n, firsts, tier, sub_seed):
     return res
 
 
+def run_empty_format(res, n, sub_seed):
+    """The empty string as a format id is not a documented value, so no reading is imposed: the store may refuse it,
+    treat it as 'omitted' (consistently), or as a format of its own. Under EVERY reading an explicit
+    delete_metadata(pid, "") must not remove documents of other formats unless "" demonstrably means 'omitted'."""
+    import os
+    from ..common import call, open_store, read_all_and_close, STORE_ALGOS
+    rng = random.Random(sub_seed)
+    scratch = new_scratch("c11e")
+    try:
+        docs = {k: make_content(v["cseed"], v["size"]) for k, v in DOCSPEC.items()}
+        docs["dE"] = b"<empty-format-document/>"
+        paths = {}
+        for k, v in docs.items():
+            paths[k] = os.path.join(scratch, "doc_" + k)
+            with open(paths[k], "wb") as f:
+                f.write(v)
+        for i in range(n):
+            root = os.path.join(scratch, f"s{i}")
+            st = open_store(root, rng.choice([1, 3]), rng.choice([1, 2]), rng.choice(STORE_ALGOS))
+            pid = rng.choice(["ab", "a", "doi:10.1/x", "\u00e9"])
+            other = rng.choice(["c", "f1", "http://a/b#c"])
+            bound = rng.random() < 0.5
+            if bound:
+                st.store_object(pid, paths["d1"])
+            st.store_metadata(pid, paths["d1"])
+            st.store_metadata(pid, paths["d5"], other)
+            o = call(st.store_metadata, pid, paths["dE"], "")
+            res.evaluations += 1
+            wit = {"engine": "C11-empty-format", "pid": pid, "other_format": other, "bound": bound, "store_outcome": o.brief()}
+            if not o.ok:
+                res.count("empty_format_refused_by_store_metadata")
+                reading = "refused"
+            else:
+                r = call(st.retrieve_metadata, pid)
+                got = read_all_and_close(r.value) if r.ok else None
+                if got == docs["dE"]:
+                    res.count("empty_format_means_omitted")
+                    continue            # a consistent 'omitted' reading: delete_metadata(pid, "") may then delete all
+                reading = "own-format"
+                res.count("empty_format_is_a_format_of_its_own")
+            d = call(st.delete_metadata, pid, "")
+            wit["reading"] = reading
+            wit["delete_outcome"] = d.brief()
+            res.distinct.add(repr((pid, other, bound, reading, d.brief())))
+            for fmt, want in ((None, docs["d1"]), (other, docs["d5"])):
+                r = call(st.retrieve_metadata, pid, fmt) if fmt is not None else call(st.retrieve_metadata, pid)
+                got = read_all_and_close(r.value) if r.ok else None
+                res.count("documents_checked_after_delete_of_empty_format")
+                if got != want:
+                    wit["lost_format"] = "default" if fmt is None else fmt
+                    res.violation({"symptom": "delete_metadata-of-empty-format-removed-another-format", "reading": reading}, wit)
+                    break
+            if reading == "own-format" and d.ok:
+                r = call(st.retrieve_metadata, pid, "")
+                if r.ok:
+                    read_all_and_close(r.value)
+                    res.violation({"symptom": "deleted-document-still-retrievable", "format": "empty"}, wit)
+            rmtree(root)
+            clear_atexit_tmp_handlers()
+    finally:
+        rmtree(scratch)
+    return res
+
+
 def replay(witness):
+    if witness.get("engine") == "C11-empty-format":
+        res = ShardResult()
+        return run_empty_format(res, 40, 111)
     return seq_replay(witness, relevant)
